@@ -95,8 +95,43 @@ def _median(win):
     return res
 
 
+def _gauss_weights(sigma, truncate=4.0):
+    """scipy.ndimage._gaussian_kernel1d (order 0) in double precision, read
+    as exact rationals."""
+    import math
+    from .core import nice_fraction
+    sd = float(sigma)
+    radius = int(truncate * sd + 0.5)
+    xs = range(-radius, radius + 1)
+    phi = [math.exp(-0.5 / (sd * sd) * x * x) for x in xs]
+    tot = math.fsum(phi)
+    return radius, [Fraction(p / tot) for p in phi]
+
+
 def gaussian_filter1d(x, sigma, **k):
-    raise Unsupported("gaussian_filter1d (installed per harness)")
+    """Exact linear filter: out_i = sum_k w_k * x[reflect(i + k)] (scipy's
+    kernel weights as rationals, mode='reflect'); coefficients are collected
+    per input slot, so the result is a linear form in the inputs."""
+    x = symnp.asarray(x)
+    x._need_dense("gaussian_filter1d")
+    e = x.elems
+    n = len(e)
+    if n == 0:
+        return symnp.SymArr([])
+    if core.is_sym(sigma):
+        raise Unsupported("symbolic sigma")
+    radius, w = _gauss_weights(sigma)
+    out = []
+    for i in range(n):
+        coef = [Fraction(0)] * n
+        for j, wk in enumerate(w):
+            coef[_reflect_index(i + j - radius, n)] += wk
+        tot = 0
+        for c, v in zip(coef, e):
+            if c:
+                tot = tot + c * v
+        out.append(tot)
+    return symnp.SymArr(out, dtype=symnp.float64)
 
 
 ndimage.uniform_filter1d = uniform_filter1d
